@@ -26,6 +26,8 @@ LABEL_NAMES += ['größe', 'λ']
 CONST_NAMES += ['A0', 'SP', 'X5', 'ZERO', 'T1', 'S1']
 # likewise `ERROR = 5` / `String = 2` are constant definitions (only the lower-case words start a directive line)
 CONST_NAMES += ['ERROR', 'String']
+# ... and hi / lo / o are plain names (only %hi / %lo with the percent sign are modifiers)
+CONST_NAMES += ['hi', 'lo', 'o']
 assert not set(LABEL_NAMES) & set(CONST_NAMES)
 
 EDGE_REGS = [0, 1, 2, 5, 6, 7, 8, 9, 15, 16, 31]
@@ -401,7 +403,7 @@ class Builder:
                 return ir.Insn('andi', {'rd': self.reg(rd), 'rs1': self.reg(rs1), 'imm': self.imm12(-40, 40)})
             return ir.Insn('addi', {'rd': self.reg(), 'rs1': self.reg(), 'imm': ir.Lit(0)})
         mn = self.pick(['addi', 'slti', 'sltiu', 'xori', 'ori', 'andi'])
-        return ir.Insn(mn, {'rd': self.reg(), 'rs1': self.reg(), 'imm': self.imm12()})
+        return ir.Insn(mn, {'rd': self.reg(), 'rs1': self.reg(), 'imm': self.maybe_paren(self.imm12())})
 
     def shamt(self, v):
         if self.chance(self.p['p_const_operand']):
@@ -472,7 +474,17 @@ class Builder:
             second = ir.Insn('addi', {'rd': self.reg(x), 'rs1': self.reg(x), 'imm': ir.Lit(self.pick([0, 4, 16, -32, 31, 100]))})
         return [first, second]
 
+    def maybe_paren(self, v):
+        """(x) as a whole operand - only for instructions that have no imm(reg) spelling (there a leading parenthesis is ambiguous)."""
+        if isinstance(v, (ir.Lit, ir.CRef, ir.Bin)) and self.chance(0.06):
+            self.tags.add('parenthesised_operand')
+            return ir.Paren(v)
+        return v
+
     def upper_operand(self, v):
+        if self.chance(0.06):
+            self.tags.add('parenthesised_operand')
+            return ir.Paren(ir.Lit(v))
         if self.chance(0.2):
             self.tags.add('expr_operand')
             return self.expr_for(v)
@@ -554,7 +566,7 @@ class Builder:
             # the VALUE, not on how its first token looks)
             self.tags.add('expr_operand')
             return self.expr_for(v.value)
-        return v
+        return self.maybe_paren(v)
 
     def _li_value(self):
         k = self.i(0, 9)
